@@ -77,6 +77,104 @@ def replay(p):
     return replay_fixed_point(p["target"], {"model": p.get("model", {})})
 
 
+def table_worker(arg):
+    """Module.init_states on symbolic tables: only rows containing the channel are written, each with the steady state for
+    ITS OWN voltage and parameters; nothing else changes."""
+    tier, canary = arg
+    undo = common.apply_canary(*canary) if canary else None
+    try:
+        return _table_worker(tier)
+    finally:
+        if undo:
+            undo()
+
+
+def _table_worker(tier):
+    import traceback
+    import numpy as np
+    import pandas as pd
+    import jax
+    jax.config.update("jax_enable_x64", True)
+    import jaxley as jx
+    import jaxley.channels as CH
+    from ..modsym import SymModule
+    from ..sym import Ctx, Proxy, Runtime
+    out = {"results": [], "error": "", "reached": {}}
+    res = lambda name, ok, detail="": out["results"].append({"name": name, "status": "proved" if ok else "refuted", "backend": "structural", "time_s": 0.0, "model": {}, "detail": detail[:500]})
+    try:
+        comp = jx.Compartment()
+        configs = []
+        cell = jx.Cell([jx.Branch(comp, ncomp=n) for n in (2, 1, 2)], parents=[-1, 0, 0])
+        cell.branch(0).insert(CH.HH())
+        cell.branch(2).comp(0).insert(CH.HH())
+        cell.branch(1).insert(CH.Na())
+        cell.branch([1, 2]).insert(CH.K())
+        cell.branch(2).comp(1).insert(CH.CaT())
+        cell.branch(0).comp(1).insert(CH.Km())
+        configs.append(("partial insertions, several channels per compartment, shared vt", cell))
+        cell2 = jx.Cell([jx.Branch(comp, ncomp=2)], parents=[-1])
+        cell2.comp(1).insert(CH.K())                      # a partial channel first ...
+        cell2.insert(CH.HH().change_name("HHx"))          # ... then a renamed channel everywhere
+        cell2.comp(0).insert(CH.CaL())
+        configs.append(("partial channel inserted before a full (renamed) one", cell2))
+        for cname, mod in configs:
+            Ctx.reset()
+            sm = SymModule(mod)
+            before = sm.nodes.copy()
+            w0 = len(sm.px._writes)
+            from ..sym import IndexOutOfBounds
+            try:
+                sm.px.init_states(delta_t=0.025)
+            except IndexOutOfBounds as e:
+                res(f"Module.init_states[{cname}]:every gather / scatter index is in range (JAX would clamp or drop silently)", False, str(e))
+                continue
+            out["reached"].update(sm.rt.reached)
+            after = sm.nodes
+            rt = Runtime()
+            expected_written = set()
+            ok_vals, ok_rows = True, True
+            detail = ""
+            for ch in mod.channels:
+                name = ch._name
+                pch = Proxy(ch, rt)
+                for r in after.index:
+                    has = bool(mod.nodes.loc[r, name])
+                    if not has:
+                        continue
+                    v = before.loc[r, "v"]
+                    params = {k: before.loc[r, k] for k in ch.channel_params}
+                    states = {k: before.loc[r, k] for k in ch.channel_states}
+                    want = pch.init_state(states, v, params, 0.025)
+                    for key, val in want.items():
+                        expected_written.add((r, key))
+                        got = after.loc[r, key]
+                        if not (hasattr(got, "e") and z3.simplify(got.e - val.e).eq(z3.RealVal(0))):
+                            ok_vals = False
+                            detail = detail or f"{cname}: {key}[{r}] = {str(getattr(got, 'e', got))[:120]} is not the steady state at v[{r}] with the parameters of row {r}"
+            # frame: every other cell unchanged
+            for c in after.columns:
+                for r in after.index:
+                    if (r, c) in expected_written:
+                        continue
+                    a, b = after.loc[r, c], before.loc[r, c]
+                    same = (a is b) or (hasattr(a, "e") and hasattr(b, "e") and a.e.eq(b.e)) or (not hasattr(a, "e") and not hasattr(b, "e") and ((a == b) or (pd.isna(a) and pd.isna(b))))
+                    if not same:
+                        ok_rows = False
+                        detail = detail or f"{cname}: cell {c}[{r}] changed although row {r} does not contain the channel"
+            res(f"Module.init_states[{cname}]:every gate of every inserted channel is the steady state for the row's own voltage and parameters", ok_vals, detail)
+            res(f"Module.init_states[{cname}]:only the compartments that contain the channel are written, nothing else changes", ok_rows, detail)
+            writes = set(sm.px._writes[w0:]) - {"jaxnodes", "jaxedges"}
+            res(f"Module.init_states[{cname}]:writes no module attribute besides the table cells (frame log)", not writes, str(writes))
+    except Exception as e:
+        out["error"] = f"{type(e).__name__}: {e}\n{traceback.format_exc(limit=8)}"
+    return out
+
+
+TABLE_CANARIES = [
+    ("jaxley.modules.base:Module.init_states", "src", "voltages = channel_nodes.loc[channel_indices, \"v\"].to_numpy()", "voltages = channel_nodes[\"v\"].to_numpy()[: len(channel_indices)]"),
+]
+
+
 def main(tier):
     ck = Check(PID, tier)
     ts = K.INIT_TARGETS + K.UPDATE_TARGETS
@@ -92,7 +190,21 @@ def main(tier):
             if r["status"] == "refuted":
                 ck.violation(r["name"], {"solver_output": r["detail"], "model": r["model"], "kind": "lemma"}, reproduced=False)
         ck.add_function(o[1]["target"], "body discharged", len(o[1]["results"]))
+    outs_t = run_units("jxverif.props.C14", "table_worker", [(tier, None)] + [("quick", c) for c in TABLE_CANARIES])
+    o = outs_t[0]
+    if o[0] != "ok" or o[1]["error"]:
+        ck.error(str(o[1] if o[0] != "ok" else o[1]["error"])[:900])
+    else:
+        for r in o[1]["results"]:
+            ck.add(r)
+            if r["status"] == "refuted":
+                ck.violation(r["name"], {"solver": r["backend"], "solver_output": r["detail"], "kind": "c14-table"}, reproduced=False)
+        ck.add_function("jaxley.modules.base:Module.init_states", "body discharged" if all(r["status"] == "proved" for r in o[1]["results"]) else "body NOT discharged", len(o[1]["results"]))
+        ck.extra.setdefault("code_reached", {}).update({k: v for k, v in o[1]["reached"].items() if k.startswith("jaxley")})
+    for can, oc in zip(TABLE_CANARIES, outs_t[1:]):
+        ref = oc[0] == "ok" and not oc[1]["error"] and any(r["status"] != "proved" for r in oc[1]["results"])
+        ck.canaries.append((f"{can[0]}: {can[2][:50]!r} -> {can[3][:50]!r}", ref))
     ck.trusted = ["gate contracts (alpha>0, beta>0 / x_inf in (0,1), tau>0) discharged under C03", "jax.numpy primitive models", "z3 + exp axioms"]
     ck.assumptions += ["domain: v in [-120,60] mV, dt in (0,1000], parameter ranges as in C03",
-                       "table-level part of C14 (only rows containing the channel are written, each with its own voltage/parameters) is decided in the module-level part of this check when present"]
+                       "table-level part: the real Module.init_states runs on symbolic tables of two cells with partial insertions, several channels per compartment, a renamed channel and shared parameters (structures enumerated, values symbolic)"]
     return ck.finish()
